@@ -128,6 +128,18 @@ def run_job(job):
     else:
         for k in ("fuelburn", "L_equals_W", "CD"):
             cmp(k, H[k], F[k], 1e-6)
+    if "fuel_vols" in H and "fuel_vols" in F:
+        # the fuel-volume margin the documentation's wingbox cases constrain (WingboxFuelVolDelta fed by fuelburn and fuel_vols)
+        from openaerostruct.structures.wingbox_fuel_vol_delta import WingboxFuelVolDelta
+        from .onecomp import run_comp
+
+        dl = {}
+        for tag, ob, sym in (("half", H, True), ("full", F, False)):
+            surf = {"name": "wing", "mesh": np.zeros((2, len(ob["fuel_vols"]) + 1, 3)), "symmetry": sym, "Wf_reserve": 1500.0, "fuel_density": 803.0}
+            dl[tag] = float(run_comp(WingboxFuelVolDelta(surface=surf), {"fuelburn": float(np.ravel(F["fuelburn"])[0]), "fuel_vols": ob["fuel_vols"]}, ["fuel_vol_delta"])["fuel_vol_delta"].item())
+        if abs(dl["half"] - dl["full"]) > tol * max(abs(dl["full"]), 1e-6):
+            exact = abs(2.0 * dl["half"] - dl["full"]) <= 1e-9 * max(abs(dl["full"]), 1e-6)
+            bad.append(("half:%s:%s:%s" % (job["side"], job["fem"], "fuel_vol_delta_exactly_halved" if exact else "fuel_vol_delta"), {"half": dl["half"], "full": dl["full"]}))
     cmp("CM", H["CM"], F["CM"], 1e-3)
     cmp("cg", H["cg"], F["cg"], 1e-3)
     cmp("cg_location", H["cg_location"], F["cg_location"], 1e-3)
